@@ -193,14 +193,168 @@ def table():
     return rows
 
 
+# ---------------------------------------------------------------------------------------------------------------------
+# Serializer: Python `ast` of the coercion block  ->  a term `gen_prog : list stmt` of the embedded language XV.Model.CoerceLang.
+# The abstract execution is then done INSIDE Coq (CoerceLang.run, checked by CoerceLangProofs.prog_okb / prog_ok_sound); the
+# Python interpreter above stays as a cross-check.  Purely syntactic, one case per constructor; anything else: TranslationError.
+def _coq_str(s):
+    if not isinstance(s, str) or not s.isascii() or not s.isprintable():
+        raise TranslationError(f'fit coercion (serializer): string {s!r} cannot be written as a Coq string')
+    return '"' + s.replace('"', '""') + '"'
+
+
+def _is_self_attr(e):
+    return isinstance(e, ast.Attribute) and isinstance(e.value, ast.Name) and e.value.id == 'self'
+
+
+def coq_expr(e):
+    u = ast.unparse(e)
+    bad = TranslationError(f'fit coercion (serializer): expression outside the embedded fragment: {u[:100]}')
+    if isinstance(e, ast.Constant):
+        v = e.value
+        if v is None:
+            return 'ENone'
+        if isinstance(v, bool):
+            return f"(EBool {'true' if v else 'false'})"
+        if isinstance(v, int) and 0 <= v < 10 ** 6:
+            return f'(EInt {v})'
+        if isinstance(v, str):
+            return f'(EStr {_coq_str(v)})'
+        raise bad
+    if isinstance(e, ast.Name):
+        return f'(EName {_coq_str(e.id)})'
+    if _is_self_attr(e):
+        return f'(ESelf {_coq_str(e.attr)})'
+    if isinstance(e, ast.Attribute) and e.attr == 'task_types':
+        return f'(ETaskTypes {coq_expr(e.value)})'
+    if isinstance(e, ast.Compare) and len(e.ops) == 1 and len(e.comparators) == 1:
+        op = {ast.Is: 'CIs', ast.IsNot: 'CIsNot', ast.Eq: 'CEq', ast.In: 'CIn'}.get(type(e.ops[0]))
+        if op is None:
+            raise bad
+        return f'(ECmp {op} {coq_expr(e.left)} {coq_expr(e.comparators[0])})'
+    if isinstance(e, ast.UnaryOp) and isinstance(e.op, ast.Not):
+        return f'(ENot {coq_expr(e.operand)})'
+    if isinstance(e, ast.BoolOp) and len(e.values) >= 2:
+        c = 'EAnd' if isinstance(e.op, ast.And) else 'EOr'           # n-ary, all operands evaluated: right-nested binary nodes
+        out = coq_expr(e.values[-1])
+        for v in reversed(e.values[:-1]):
+            out = f'({c} {coq_expr(v)} {out})'
+        return out
+    if isinstance(e, ast.IfExp):
+        return f'(EIfExp {coq_expr(e.test)} {coq_expr(e.body)} {coq_expr(e.orelse)})'
+    if isinstance(e, ast.BinOp) and isinstance(e.op, ast.Add):
+        return f'(EAdd {coq_expr(e.left)} {coq_expr(e.right)})'
+    if isinstance(e, ast.Subscript):
+        if isinstance(e.value, ast.Attribute) and e.value.attr == 'shape':
+            if isinstance(e.slice, ast.Constant) and isinstance(e.slice.value, int) and not isinstance(e.slice.value, bool) and 0 <= e.slice.value < 8:
+                return f'(EShapeAt {coq_expr(e.value.value)} {e.slice.value})'
+            raise bad
+        if ast.unparse(e.slice) in (':, None', '(:, None)'):
+            return f'(EColNone {coq_expr(e.value)})'
+        raise bad
+    if isinstance(e, ast.Call):
+        if any(isinstance(a, ast.Starred) for a in e.args) or any(k.arg is None for k in e.keywords):
+            raise bad
+        f = ast.unparse(e.func)
+        nargs, kws = len(e.args), {k.arg: k.value for k in e.keywords}
+        if len(kws) != len(e.keywords):
+            raise bad
+        if f == 'print':
+            return 'EPrint'                                             # arguments are not evaluated (as in Interp.run)
+        if f == 'torch.as_tensor' and nargs == 1 and not kws:
+            return f'(EAsTensor {coq_expr(e.args[0])})'
+        if f == 'torch.cat':
+            if nargs == 1 and isinstance(e.args[0], ast.List) and len(e.args[0].elts) == 2 and all(k == 'dim' and ast.unparse(v) == '0' for k, v in kws.items()):
+                return f'(ECat {coq_expr(e.args[0].elts[0])} {coq_expr(e.args[0].elts[1])})'
+            raise bad
+        if f == 'Metric.from_name' and nargs == 1 and not kws:
+            return f'(EMetricFromName {coq_expr(e.args[0])})'
+        if f == 'len' and nargs == 1 and not kws and isinstance(e.args[0], ast.Attribute) and e.args[0].attr == 'shape':
+            return f'(ELenShape {coq_expr(e.args[0].value)})'
+        if f == 'max' and nargs == 2 and not kws:
+            return f'(EMax2 {coq_expr(e.args[0])} {coq_expr(e.args[1])})'
+        if f == 'dict' and nargs == 0:
+            items = '; '.join(f'({_coq_str(k)}, {coq_expr(v)})' for k, v in kws.items())
+            return f'(EDict [{items}])'
+        if f == 'ClassificationConverter':
+            if nargs == 0 and {'mode', 'n_classes'} <= set(kws) <= {'mode', 'n_classes', 'labels'}:
+                lab = f"(Some {coq_expr(kws['labels'])})" if 'labels' in kws else 'None'
+                return f"(EConverter {coq_expr(kws['mode'])} {coq_expr(kws['n_classes'])} {lab})"
+            raise TranslationError(f'fit coercion (serializer): converter constructed with {u[:100]}')
+        if isinstance(e.func, ast.Attribute) and not kws:
+            base, m = e.func.value, e.func.attr
+            if m == 'to' and nargs == 1:
+                return f'(ETo {coq_expr(base)} {coq_expr(e.args[0])})'
+            if m == 'is_floating_point' and nargs == 0:
+                return f'(EIsFloat {coq_expr(base)})'
+            if m == 'float' and nargs == 0:
+                return f'(EFloat {coq_expr(base)})'
+            if m == 'unsqueeze' and nargs == 1 and ast.unparse(e.args[0]) == '-1':
+                return f'(EUnsqueezeLast {coq_expr(base)})'
+            if m == 'item' and nargs == 0:
+                return f'(EItem {coq_expr(base)})'
+            if m == 'max' and nargs == 0:
+                return f'(EMaxAll {coq_expr(base)})'
+            if m == 'labels_to_numerical' and nargs == 1:
+                return f'(ELabelsToNum {coq_expr(base)} {coq_expr(e.args[0])})'
+    raise bad
+
+
+def coq_stmts(stmts, ind='  '):
+    if not stmts:
+        return '[]'
+    return '[ ' + (';\n' + ind + '  ').join(coq_stmt(s, ind + '  ') for s in stmts) + ' ]'
+
+
+def coq_stmt(st, ind='  '):
+    if isinstance(st, ast.Assign) and len(st.targets) == 1:
+        t = st.targets[0]
+        if isinstance(t, ast.Name):
+            return f'SAssign {_coq_str(t.id)} {coq_expr(st.value)}'
+        if _is_self_attr(t):
+            return f'SAssignSelf {_coq_str(t.attr)} {coq_expr(st.value)}'
+        raise TranslationError(f'fit coercion (serializer): assignment target {ast.unparse(t)}')
+    if isinstance(st, ast.If):
+        return f'SIf {coq_expr(st.test)}\n{ind}  {coq_stmts(st.body, ind + "  ")}\n{ind}  {coq_stmts(st.orelse, ind + "  ")}'
+    if isinstance(st, ast.Assert):
+        return f'SAssert {coq_expr(st.test)}'                          # the message is only evaluated when the assertion fails (= run fails)
+    if isinstance(st, ast.Expr) and isinstance(st.value, ast.Call) and ast.unparse(st.value.func) == 'print':
+        return 'SExpr EPrint'
+    raise TranslationError(f'fit coercion (serializer): statement outside the embedded fragment: {ast.unparse(st)[:100]}')
+
+
+def gen_prog(src=None):
+    """the coercion block of xRFM.fit (of the current source, or of the source text given) as a Coq term of type list stmt"""
+    tree = ast.parse(_src() if src is None else src)
+    return coq_stmts(block(_method(tree, 'xRFM', 'fit')))
+
+
 def generate():
     rows = table()
+    prog = gen_prog()
     shp = lambda sh, cols: {'flat': 'Flat', 'col': 'Column'}.get(sh, f'(Wide {cols})')
     items = '; '.join(f"(({mk}, {enc}, {K}%nat, {cont}, {dt}, {shp(sh, cols)}), ({'true' if c else 'false'}, {od}, {oc}%nat))" for mk, enc, K, cont, dt, sh, cols, c, od, oc in rows)
-    return f'''(* GENERATED on every run by harness/coerceops.py from /repo/xrfm/xrfm.py (abstract execution of the coercion block of fit) — do not edit *)
-From Coq Require Import List Bool Arith.
-Require Import XV.Model.Coerce.
+    return f'''(* GENERATED on every run by harness/coerceops.py from /repo/xrfm/xrfm.py (the coercion block of fit) — do not edit *)
+From Coq Require Import List Bool Arith String.
+Require Import XV.Model.Coerce XV.Model.CoerceLang XV.Proofs.CoerceLangProofs.
 Import ListNotations.
+
+(* PART 1 — the block, serialised from the Python ast to the embedded language of XV.Model.CoerceLang; the abstract execution on every
+   representation of the targets is done by Coq (CoerceLang.run under CoerceLangProofs.prog_okb), not by Python *)
+Definition gen_prog : list stmt := (
+  {prog})%string.
+Lemma gen_prog_ok : prog_okb gen_prog = true.
+Proof. vm_compute. reflexivity. Qed.
+(* on every representation the run succeeds, y and y_val end in one format, and (task type, dtype, columns) are those of Coerce.is_class / canon_y *)
+Lemma gen_prog_sound : forall r, In r all_reps -> exists env', run (cfg r) (init r) gen_prog = Some env' /\\ outcome env' = expected r.
+Proof. exact (prog_ok_sound gen_prog gen_prog_ok). Qed.
+(* two representations of the same data (container, float width, integer width, (n,) vs (n,1)) give the same outcome *)
+Lemma gen_prog_representation_independent : forall r1 r2, In r1 all_reps -> In r2 all_reps -> same_data r1 r2 ->
+  exists g1 g2 o, run (cfg r1) (init r1) gen_prog = Some g1 /\\ run (cfg r2) (init r2) gen_prog = Some g2 /\\ outcome g1 = Some o /\\ outcome g2 = Some o.
+Proof. exact (prog_ok_representation_independent gen_prog gen_prog_ok). Qed.
+Print Assumptions gen_prog_sound.
+
+(* PART 2 — cross-check: the table computed by the Python abstract interpreter (harness/coerceops.py:Interp) *)
 Definition dtype_eqb (a b : dtype) : bool :=
   match a, b with F32, F32 | F64, F64 | I8, I8 | I16, I16 | I32, I32 | I64, I64 | U8, U8 => true | _, _ => false end.
 Definition gen_table : list ((metric_kind * encoding * nat * container * dtype * yshape) * (bool * dtype * nat)) := [{items}].
@@ -209,8 +363,12 @@ Definition row_ok (r : (metric_kind * encoding * nat * container * dtype * yshap
   Bool.eqb (is_class m d) cls && dtype_eqb (fst (canon_y m e K c d s)) od && Nat.eqb (snd (canon_y m e K c d s)) oc.
 Lemma gen_table_eq_model : forallb row_ok gen_table = true.
 Proof. vm_compute. reflexivity. Qed.
-Lemma gen_table_size : length gen_table = {len(rows)}%nat.
+Lemma gen_table_size : List.length gen_table = {len(rows)}%nat.
 Proof. vm_compute. reflexivity. Qed.
+(* the two routes agree: same domain in the same order, and the Python table is what the Coq interpreter computes *)
+Lemma gen_table_eq_run : map fst gen_table = all_reps /\\
+  map (fun r => match run (cfg r) (init r) gen_prog with Some g => outcome g | None => None end) all_reps = map (fun row => Some (snd row)) gen_table.
+Proof. vm_compute. split; reflexivity. Qed.
 '''
 
 
@@ -223,7 +381,8 @@ def check_translation(ck):
         rc, out, dt = coqc(p)
         ck.checker_cmds.append(f'coqc build/{ck.pid}/run_<pid>/CoerceOps_gen.v')
         ck.obligation('CoerceOps_gen.v: the coercion block of xRFM.fit, executed abstractly on every representation of the targets (container x dtype x shape x metric kind x '
-                      'encoding x K), yields the task type and canonical target format of the Coq model Coerce.canon_y on the whole finite domain', 'translation', rc == 0, out)
+                      'encoding x K), yields the task type and canonical target format of the Coq model Coerce.canon_y on the whole finite domain (the block is serialised to the embedded language '
+                      'CoerceLang and executed by the Coq interpreter: prog_okb gen_prog = true, prog_ok_sound; the Python abstract interpreter is a cross-check)', 'translation', rc == 0, out)
         return rc == 0
     except TranslationError as e:
         ck.obligation('coerceops translator recognises the source', 'translation', False, str(e))
